@@ -198,9 +198,19 @@ def run_lines(binary, args, lines, timeout=600, env=None):
             err_all += p.stderr[-2000:]
         except subprocess.TimeoutExpired as e:
             raw = e.stdout or b""
-            out = (raw.decode(errors="replace") if isinstance(raw, bytes) else raw).splitlines()
+            txt = raw.decode(errors="replace") if isinstance(raw, bytes) else raw
+            out = txt.splitlines()
+            if txt and not txt.endswith("\n") and out:
+                out = out[:-1]       # a line cut off in the middle is not an answer
             err_all += "TIMEOUT"
             rc = -9
+            if out:
+                # the batch as a whole ran out of time while it was making progress: the case in flight is
+                # not to blame, it is run again as the first case of the next batch (only a case that uses
+                # up the whole time on its own counts as "no output")
+                res += out[:len(lines) - pos]
+                pos = len(res)
+                continue
         if out and out[-1] == "HANG":
             out[-1] = None
         res += out[:len(lines) - pos]
